@@ -405,6 +405,55 @@ func suiteLex(o *suiteOut, r *rng, tier string, n int) {
 			checkProcContents(o, line, intp, []lexTok{{kind: "name", s: []byte(nm)}})
 		}
 	}
+	// the serialisers themselves, against their Lean model (Model/Serialise.lean), and back through the scanner
+	serCase := func(kind string, b []byte) {
+		line := "ser " + kind + " " + hx(b)
+		out := func() (res string) {
+			defer func() {
+				if recover() != nil {
+					res = "panic"
+				}
+			}()
+			if kind == "s" {
+				return hx([]byte(postscript.String(b).PS()))
+			}
+			return hx([]byte(postscript.Name(b).PS()))
+		}()
+		o.emit(line, out, out != "panic")
+		if out == "panic" {
+			return
+		}
+		prog := "{" + string(unhx(out)) + "}"
+		_, intp, _ := runProgram(0, false, []byte(prog))
+		if intp != nil {
+			kd := map[string]string{"s": "str", "n": "name"}[kind]
+			checkProcContents(o, line, intp, []lexTok{{kind: kd, s: b}})
+		}
+	}
+	for a := 0; a < 256; a++ {
+		serCase("s", []byte{byte(a)})
+		serCase("n", []byte{byte(a)})
+		for b := 0; b < 256; b++ {
+			if tier == "thorough" || r.chance(1, 40) {
+				serCase("s", []byte{byte(a), byte(b)})
+				serCase("n", []byte{byte(a), byte(b)})
+			}
+		}
+	}
+	serCase("s", nil)
+	for i := 0; i < nr; i++ {
+		s := make([]byte, r.intn(40))
+		for j := range s {
+			s[j] = byte(r.intn(256))
+			if r.chance(1, 2) {
+				const special = "()()\\\r\n\t <>/%"
+				s[j] = special[r.intn(len(special))]
+			}
+		}
+		serCase("s", s)
+		serCase("n", []byte(randName(r)))
+	}
+	o.count("serialiser cases")
 	// near-number names and boundary numbers
 	for _, c := range []struct {
 		text string
@@ -582,5 +631,25 @@ func suiteEexec(o *suiteOut, r *rng, tier string, n int) {
 
 func init() {
 	suites["lex"] = suiteLex
+	replayers["ser"] = func(o *suiteOut, line string) {
+		f := strings.Split(line, " ")
+		b := unhx(f[2])
+		out := func() (res string) {
+			defer func() {
+				if recover() != nil {
+					res = "panic"
+				}
+			}()
+			if f[1] == "s" {
+				return hx([]byte(postscript.String(b).PS()))
+			}
+			return hx([]byte(postscript.Name(b).PS()))
+		}()
+		o.emit(line, out, true)
+		if out != "panic" {
+			_, intp, _ := runProgram(0, false, []byte("{"+string(unhx(out))+"}"))
+			checkProcContents(o, line, intp, []lexTok{{kind: map[string]string{"s": "str", "n": "name"}[f[1]], s: b}})
+		}
+	}
 	suites["eexec"] = suiteEexec
 }
